@@ -97,13 +97,14 @@ def scenario(ch, cfg):
     # ---- server
     if peer_kind == "real":
         if fault != "connect-first":
-            env.start_server(src=["sq::{x*x}", "v::4711"])
+            env.start_server(src=["sq::{x*x}", "v::4711", "cnt::{[a];a::x;#a}"])
             w.run(until=lambda: env.listener_up(), max_steps=2000)
         else:
             stats["probe_retry_path"] += 1
             # the listener appears only after the client's first attempt was refused
             env.server.klongloop.call_later(2.0 + ch.draw(8, "srvdelay"), lambda: [env.server.klong(f".srv({PORT})"),
-                                                                                  env.server.klong("sq::{x*x}"), env.server.klong("v::4711")])
+                                                                                  env.server.klong("sq::{x*x}"), env.server.klong("v::4711"),
+                                                                                  env.server.klong("cnt::{[a];a::x;#a}")])
     else:
         w.run(until=lambda: env.listener_up(), max_steps=2000)
 
@@ -144,7 +145,13 @@ def scenario(ch, cfg):
     # ---- callers
     def make_msg(i, j):
         base = 1000 * (i + 1)
-        kind = 0 if peer_kind == "scripted" else ch.weighted([5, 2, 1, 1, 1, 1], "msgkind")
+        kind = 0 if peer_kind == "scripted" else ch.weighted([5, 2, 1, 1, 1, 1, 1], "msgkind")
+        if kind == 6:
+            # a request frame larger than 64 KiB (several callers may be sending at once): the answer is its length
+            import numpy as np
+            n = 8300 + 10 * i + j
+            stats["probe_big_request"] += 1
+            return ipc.KGRemoteFnCall(KGSym("cnt"), [np.arange(n)]), n
         if kind == 0:
             return f"{base}+{j}", base + j
         if kind == 1:
@@ -186,7 +193,7 @@ def scenario(ch, cfg):
         while j < len(calls):
             msg, exp = calls[j]
             w.yield_point("invoke")
-            rec = {"caller": i, "idx": j, "msg": (f"fncall({msg.sym},{msg.params})" if hasattr(msg, "sym") else
+            rec = {"caller": i, "idx": j, "msg": (f"fncall({msg.sym},{str(msg.params)[:30]})" if hasattr(msg, "sym") else
                                                f"dictget({msg.key})" if hasattr(msg, "key") else repr(msg)[:40]),
                    "expected": exp, "inv_step": w.steps, "ret_step": None, "conn": i % len(ncs),
                    "after_loss": (i % len(ncs)) in state.get("lost_conn", ())}
